@@ -15,7 +15,7 @@ class C03(FCheck):
     PER_CASE = {"quick": 36, "thorough": 100000}
     PAIRS = {"quick": 0, "thorough": 10}
     kinds = ("errno", "kill")
-    technique = "deterministic simulation: alias grid (path spelling, symlink, hard link) x single-fault enumeration x kill enumeration (SIGKILL before each system call); snapshot oracle on every source and bystander in every run"
+    technique = "deterministic simulation: alias grid (path spelling, symlink, hard link) x single-fault enumeration x kill enumeration (SIGKILL before each system call) x extra schedules with user-space preemption on the alias cases; snapshot oracle on every source and bystander in every run"
     rule = ("case = (a) alias invocation: the destination designates the source through ./f, d/../f, its own directory, a symlink, a hard link, "
             "-T onto itself, absolute vs relative spelling; or (b) an ordinary copy next to bystander files, hard links and symlinks pointing out "
             "of the destination; each case runs fault-free, then with one errno at an enumerated call and with SIGKILL at enumerated scheduling "
